@@ -15,10 +15,11 @@ for s in $SEEDS; do
   rm -rf $D; rsync -a --exclude .git /repo/ $D/
   if ! (cd $D && patch -p1 -s < /verif/seeded/$s/patch.diff); then echo "| $s | $prop | patch does not apply |" >> $TMPOUT; rm -rf $D; continue; fi
   if python3 -c "import json,sys;sys.exit(0 if '$prop' in json.load(open('spec/properties.json')) else 1)"; then
-    res=$(./bin/rvc check $prop --repo $D --evidence $D/.evidence 2>&1 | grep -E "^VIOLATION|^$prop " | head -5)
+    res=$(./bin/rvc check $prop --repo $D --evidence $D/.evidence 2>&1 | grep -E "^VIOLATION|^$prop ")
     nv=$(echo "$res" | grep -c "^VIOLATION")
-    first=$(echo "$res" | grep "^VIOLATION" | head -1 | sed 's/.*obligation=//' | cut -c1-90)
-    if [ "$nv" -gt 0 ]; then echo "| $s | $prop | DETECTED ($nv obligations; first: $first) |" >> $TMPOUT; else echo "| $s | $prop | missed |" >> $TMPOUT; fi
+    nr=$(echo "$res" | grep "^VIOLATION" | grep -c "failing-input-replayed-on-real-code\|failing-input=")
+    first=$(echo "$res" | grep "^VIOLATION" | head -1 | sed 's/.*obligation=//; s/.*bounded-test=/bounded-test=/' | cut -c1-100)
+    if [ "$nv" -gt 0 ]; then echo "| $s | $prop | DETECTED ($nv obligations, $nr with a failing input replayed on the real code; first: $first) |" >> $TMPOUT; else echo "| $s | $prop | missed |" >> $TMPOUT; fi
   else
     echo "| $s | $prop | property not claimed yet |" >> $TMPOUT
   fi
